@@ -4,6 +4,10 @@ from __future__ import annotations
 import contextlib
 import copy
 import io
+import json
+import subprocess
+import sys
+from pathlib import Path
 import math
 from fractions import Fraction
 
@@ -321,6 +325,50 @@ def main(ck: Check):
                         continue
                     add({"fn": "sf_trace", "m": meta_key(m), "ref": stat_vec8(ref_d), "n": max(res) if res else 0},
                         {"cap": cap, "t": res}, "Starforce.calculate_improvement (synthetic meta)")
+
+    # ------------------------------------------------------------ the answer does not depend on what was asked before
+    # near-twins (same gear id, reference stats that differ in ONE field: an off-job main stat appearing, an attack
+    # value moving, ...) are asked in one order here and in the opposite order in a new interpreter
+    import c17_order
+    order_items = []
+    cand = [m for m in metas.values() if m.req_job != 0 and not m.superior_eqp and m.max_scroll_chance > 0]
+    rng.shuffle(cand)
+    cand = cand[: (60 if thorough else 14)] + [mk_meta(int(k.value), lvl, False, job, 7)
+                                              for k in (GearType.cap, GearType.wand, GearType.glove)
+                                              for lvl, job in ((150, 2), (200, 8), (140, 0))]
+    for m in cand:
+        cap_m = quiet_call(lambda: Starforce(star=0).max_star(m))
+        if not isinstance(cap_m, int) or cap_m < 1:
+            continue
+        a = {k: int(getattr(m.base_stat, k)) for k in F8}
+        twins = [a]
+        for _ in range(3):
+            b = dict(a)
+            f = rng.choice(F8)
+            b[f] = 0 if b[f] and rng.random() < 0.4 else b[f] + rng.choice([1, 3, 10])
+            twins.append(b)
+        for star in sorted({cap_m, min(cap_m, 17), min(cap_m, 5)}):
+            for t in twins:
+                order_items.append({"meta": m.model_dump(mode="json"), "ref": t, "star": star})
+    here = quiet_call(lambda: c17_order.evaluate(order_items))
+    order_checked = 0
+    try:
+        pr = subprocess.run([sys.executable, str(Path(__file__).with_name("c17_order.py"))],
+                            input=json.dumps(order_items[::-1]), capture_output=True, text=True, timeout=300)
+        there = json.loads(pr.stdout)[::-1] if pr.returncode == 0 else None
+    except Exception:  # noqa: BLE001
+        there = None
+    if not isinstance(here, list) or there is None or len(there) != len(order_items):
+        ck.broken.append({"kind": "harness", "part": "C17 order independence", "detail": "the helper interpreter gave no answer"})
+    else:
+        for it, x, y in zip(order_items, here, there):
+            order_checked += 1
+            if x != y:
+                ck.add_failing({"kind": "starforce", "what": "the star-force bonus of a gear depends on which gears were computed "
+                                "before it in the same process (same call, two orders of the same list of calls)",
+                                "gear": it["meta"]["id"], "gear_name": it["meta"]["name"], "ref_stat": it["ref"],
+                                "star": it["star"], "asked_in_list_order": x, "asked_in_reverse_order_in_a_new_process": y})
+    sweep.calls += 2 * order_checked
 
     # ------------------------------------------------------------ random single steps / table look-ups (any input)
     n_single = 4000 if thorough else 400
